@@ -22,7 +22,7 @@ type derParts struct {
 
 func (env *SpecEnv) derParse(s *SliceVal) derParts {
 	at := func(i int64) *Term {
-		return substitute(env.e.sliceElem(env.state(), s, mkInt64(i)), env.state().subst)
+		return env.state().sub(env.e.sliceElem(env.state(), s, mkInt64(i)))
 	}
 	n := s.length
 	lb := at(1)
@@ -58,7 +58,7 @@ func (env *SpecEnv) derOK(s *SliceVal, tag *Term) *Term {
 		return tFalse
 	}
 	p := env.derParse(s)
-	first := substitute(env.e.sliceElem(env.state(), s, mkInt64(0)), env.state().subst)
+	first := env.state().sub(env.e.sliceElem(env.state(), s, mkInt64(0)))
 	// single-octet identifier (low-tag-number form, X.690 8.1.2.2): tag number below 31
 	return mkAnd(p.form, mkEq(first, tag), mkNot(mkEq(mkModC(first, big.NewInt(32)), mkInt64(31))))
 }
@@ -78,7 +78,7 @@ func (env *SpecEnv) derInt(s *SliceVal) *Term {
 	ok := env.derOK(s, mkInt64(2))
 	cs := env.derContent(s)
 	at := func(i int64) *Term {
-		return substitute(env.e.sliceElem(env.state(), cs, mkInt64(i)), env.state().subst)
+		return env.state().sub(env.e.sliceElem(env.state(), cs, mkInt64(i)))
 	}
 	c := mkInt64
 	minimal := mkNot(mkAnd(mkLt(c(1), cs.length), mkEq(at(0), c(0)), mkLt(at(1), c(128))))
@@ -87,7 +87,7 @@ func (env *SpecEnv) derInt(s *SliceVal) *Term {
 
 func (env *SpecEnv) derIntMag(s *SliceVal) *SliceVal {
 	cs := env.derContent(s)
-	first := substitute(env.e.sliceElem(env.state(), cs, mkInt64(0)), env.state().subst)
+	first := env.state().sub(env.e.sliceElem(env.state(), cs, mkInt64(0)))
 	strip := mkIte(mkAnd(mkLt(mkInt64(1), cs.length), mkEq(first, mkInt64(0))), mkInt64(1), mkInt64(0))
 	return &SliceVal{reg: cs.reg, path: cs.path, off: mkAdd(cs.off, strip), length: mkSub(cs.length, strip), capacity: mkSub(cs.capacity, strip), elem: cs.elem, backingN: cs.backingN}
 }
@@ -145,7 +145,7 @@ func (env *SpecEnv) os2ipv(sl *SliceVal) *Term {
 		n := sl.length.Val.Int64()
 		var bs []*Term
 		for i := int64(0); i < n; i++ {
-			bs = append(bs, substitute(env.e.sliceElem(env.state(), sl, mkInt64(i)), env.state().subst))
+			bs = append(bs, env.state().sub(env.e.sliceElem(env.state(), sl, mkInt64(i))))
 		}
 		return os2ipTerms(bs)
 	}
@@ -158,4 +158,138 @@ func (env *SpecEnv) os2ipv(sl *SliceVal) *Term {
 	t := mkApp("os2ipn", SInt, env.e.dynArr(env.state(), sl.reg), sl.off, sl.length)
 	t.Lo = big0
 	return t
+}
+
+// ---- BIT STRING (X.690 8.6 / 11.2: DER requires unused bits to be zero) and OBJECT IDENTIFIER ------
+
+func (env *SpecEnv) derBits(s *SliceVal) *Term {
+	ok := env.derOK(s, mkInt64(3))
+	cs := env.derContent(s)
+	at := func(i *Term) *Term { return env.state().sub(env.e.sliceElem(env.state(), cs, i)) }
+	c := mkInt64
+	pad := at(c(0))
+	last := at(mkSub(cs.length, c(1)))
+	// last & (2^pad - 1) == 0 for pad in 0..7
+	lowZero := tTrue
+	for k := int64(7); k >= 1; k-- {
+		lowZero = mkIte(mkEq(pad, c(k)), mkEq(mkModC(last, big.NewInt(1<<uint(k))), c(0)), lowZero)
+	}
+	return mkAnd(ok, mkLe(c(1), cs.length), mkLe(pad, c(7)),
+		mkImplies(mkEq(cs.length, c(1)), mkEq(pad, c(0))),
+		mkImplies(mkLt(c(1), cs.length), lowZero))
+}
+
+func (env *SpecEnv) derBitsBytes(s *SliceVal) *SliceVal {
+	cs := env.derContent(s)
+	return &SliceVal{reg: cs.reg, path: cs.path, off: mkAdd(cs.off, mkInt64(1)), length: mkSub(cs.length, mkInt64(1)), capacity: mkSub(cs.capacity, mkInt64(1)), elem: cs.elem, backingN: cs.backingN}
+}
+
+func (env *SpecEnv) bytesEqualConst(s *SliceVal, enc []byte) *Term {
+	cs := []*Term{mkEq(s.length, mkInt64(int64(len(enc))))}
+	for i, b := range enc {
+		cs = append(cs, mkEq(env.state().sub(env.e.sliceElem(env.state(), s, mkInt64(int64(i)))), mkInt64(int64(b))))
+	}
+	return mkAnd(cs...)
+}
+
+// oidContent: DER content octets of an OBJECT IDENTIFIER given by its components (X.690 8.19).
+func oidContent(comp []int64) []byte {
+	var out []byte
+	b128 := func(v int64) {
+		var tmp []byte
+		tmp = append(tmp, byte(v&0x7f))
+		v >>= 7
+		for v > 0 {
+			tmp = append(tmp, byte(v&0x7f)|0x80)
+			v >>= 7
+		}
+		for i := len(tmp) - 1; i >= 0; i-- {
+			out = append(out, tmp[i])
+		}
+	}
+	b128(comp[0]*40 + comp[1])
+	for _, c := range comp[2:] {
+		b128(c)
+	}
+	return out
+}
+
+var (
+	oidEcPublicKeyContent = oidContent([]int64{1, 2, 840, 10045, 2, 1})
+	oidSecp256k1Content   = oidContent([]int64{1, 3, 132, 0, 10})
+)
+
+func init() {
+	specFuncs["derbits"] = func(env *SpecEnv, n *ast.CallExpr) Value {
+		return env.derBits(env.sliceOf(env.eval(n.Args[0]), n.Args[0]))
+	}
+	specFuncs["derbitsbytes"] = func(env *SpecEnv, n *ast.CallExpr) Value {
+		return env.derBitsBytes(env.sliceOf(env.eval(n.Args[0]), n.Args[0]))
+	}
+	specFuncs["derbitspad"] = func(env *SpecEnv, n *ast.CallExpr) Value {
+		cs := env.derContent(env.sliceOf(env.eval(n.Args[0]), n.Args[0]))
+		return env.state().sub(env.e.sliceElem(env.state(), cs, mkInt64(0)))
+	}
+	// derspki(data): SubjectPublicKeyInfo ::= SEQUENCE { SEQUENCE { OID ecPublicKey, OID secp256k1 }, BIT STRING }
+	// strict DER, nothing before/between/after, BIT STRING with zero unused bits.  The key octets are
+	// returned by derspki_key(data).
+	specFuncs["derspki"] = func(env *SpecEnv, n *ast.CallExpr) Value {
+		data := env.sliceOf(env.eval(n.Args[0]), n.Args[0])
+		if data.reg == nil {
+			return tFalse
+		}
+		outer := env.derOK(data, mkInt64(0x30))
+		inner := env.derContent(data)
+		algo := inner
+		bits := env.derRest(algo)
+		ac := env.derContent(algo)
+		oid1 := ac
+		oid2 := env.derRest(oid1)
+		return mkAnd(outer, mkEq(env.derRest(data).length, mkInt64(0)),
+			env.derOK(algo, mkInt64(0x30)),
+			env.derBits(bits), mkEq(env.derRest(bits).length, mkInt64(0)),
+			env.derOK(oid1, mkInt64(6)), env.bytesEqualConst(env.derContent(oid1), oidEcPublicKeyContent),
+			env.derOK(oid2, mkInt64(6)), env.bytesEqualConst(env.derContent(oid2), oidSecp256k1Content),
+			mkEq(env.derRest(oid2).length, mkInt64(0)),
+			mkEq(env.state().sub(env.e.sliceElem(env.state(), env.derContent(bits), mkInt64(0))), mkInt64(0)))
+	}
+	specFuncs["derspki_key"] = func(env *SpecEnv, n *ast.CallExpr) Value {
+		data := env.sliceOf(env.eval(n.Args[0]), n.Args[0])
+		return env.derBitsBytes(env.derRest(env.derContent(data)))
+	}
+}
+
+// ---- SEC 1 v2 §2.3.4 octet-string-to-point acceptance (non-identity encodings) ------------------------
+func (env *SpecEnv) sec1Compressed(k *SliceVal) *Term {
+	if k.reg == nil {
+		return tFalse
+	}
+	at := func(i int64) *Term { return env.state().sub(env.e.sliceElem(env.state(), k, mkInt64(i))) }
+	x := env.os2ipv(&SliceVal{reg: k.reg, path: k.path, off: mkAdd(k.off, mkInt64(1)), length: mkInt64(32), capacity: mkInt64(32), elem: k.elem, backingN: k.backingN})
+	fx := mkToRing(SFp, x)
+	rhs := mkAdd(mkPow(fx, big.NewInt(3)), mkRingConst(SFp, big.NewInt(7)))
+	return mkAnd(mkEq(k.length, mkInt64(33)), mkOr(mkEq(at(0), mkInt64(2)), mkEq(at(0), mkInt64(3))), mkLt(x, mkInt(bigP)), liftApp("issq", SBool, rhs))
+}
+
+func (env *SpecEnv) sec1Uncompressed(k *SliceVal) *Term {
+	if k.reg == nil {
+		return tFalse
+	}
+	at := func(i int64) *Term { return env.state().sub(env.e.sliceElem(env.state(), k, mkInt64(i))) }
+	sub := func(o int64) *Term {
+		return env.os2ipv(&SliceVal{reg: k.reg, path: k.path, off: mkAdd(k.off, mkInt64(o)), length: mkInt64(32), capacity: mkInt64(32), elem: k.elem, backingN: k.backingN})
+	}
+	x, y := sub(1), sub(33)
+	fx, fy := mkToRing(SFp, x), mkToRing(SFp, y)
+	on := mkEq(mkMul(fy, fy), mkAdd(mkPow(fx, big.NewInt(3)), mkRingConst(SFp, big.NewInt(7))))
+	return mkAnd(mkEq(k.length, mkInt64(65)), mkEq(at(0), mkInt64(4)), mkLt(x, mkInt(bigP)), mkLt(y, mkInt(bigP)), on)
+}
+
+func init() {
+	specFuncs["sec1c"] = func(env *SpecEnv, n *ast.CallExpr) Value {
+		return env.sec1Compressed(env.sliceOf(env.eval(n.Args[0]), n.Args[0]))
+	}
+	specFuncs["sec1u"] = func(env *SpecEnv, n *ast.CallExpr) Value {
+		return env.sec1Uncompressed(env.sliceOf(env.eval(n.Args[0]), n.Args[0]))
+	}
 }
